@@ -234,6 +234,10 @@ type gatedOutcome struct {
 }
 
 func (e *c10Env) runGated(id, repoDir string, args []string, classes string, sch schedule, classOf func(string) string, dieMode string) gatedOutcome {
+	return e.runGatedWith(e.env.bin, id, repoDir, args, classes, sch, classOf, dieMode)
+}
+
+func (e *c10Env) runGatedWith(bin *run.Build, id, repoDir string, args []string, classes string, sch schedule, classOf func(string) string, dieMode string) gatedOutcome {
 	out := gatedOutcome{ID: id, Sched: sch, DieMode: dieMode}
 	for attempt := 0; attempt < 3; attempt++ {
 		sockDir, err := os.MkdirTemp("", "vg")
@@ -256,8 +260,8 @@ func (e *c10Env) runGated(id, repoDir string, args []string, classes string, sch
 			inf, infl := gateController(ctx, ln, &sch, classOf, dieMode)
 			done <- ctlResult{inf, infl}
 		}()
-		res := e.env.bin.Run(run.Opt{Dir: repoDir, Args: args, PathFirst: e.fake, Home: e.home, Timeout: 60 * time.Second,
-			Env: []string{"VERIF_GITLOG=" + filepath.Join(work, "git.log"), "VERIF_FAULT_DIR=" + work, "VERIF_GATE=" + sock, "VERIF_GATE_CLASSES=" + classes}})
+		res := bin.Run(run.Opt{Dir: repoDir, Args: args, PathFirst: e.fake, Home: e.home, Timeout: 60 * time.Second,
+			Env: []string{"VERIF_GITLOG=" + filepath.Join(work, "git.log"), "VERIF_FAULT_DIR=" + work, "VERIF_GATE=" + sock, "VERIF_GATE_CLASSES=" + classes, "GORACE=halt_on_error=0"}})
 		cancel()
 		cr := <-done
 		out.Infeasible, out.Inflicted = cr.infeasible, cr.inflicted
@@ -368,7 +372,7 @@ func checkGatedSchedules(c *Ctx, e *c10Env) {
 			go func(i int) {
 				defer wg.Done()
 				defer func() { <-sem }()
-				outs[i] = e.runGated(fmt.Sprintf("g%d-%d", fi, i), repoDir, args, f.classes, scheds[i], classOf, []string{"kill", "exit128", "quiet7"}[i%3])
+				outs[i] = e.runGated(fmt.Sprintf("g%d-%d", fi, i), repoDir, args, f.classes, scheds[i], classOf, []string{"kill", "exit128", "quiet7", "pipe"}[i%4])
 				if os.Getenv("VERIF_GATE_DEBUG") != "" {
 					o := outs[i]
 					fmt.Printf("GATE %s exit=%d timeout=%v stdout=%dB infeasible=%q stderr=%q trail=%v\n", o.ID, o.Exit, o.TimedOut, len(o.Stdout), o.Infeasible, tail(o.Stderr, 2), o.Sched.Trail)
@@ -484,3 +488,125 @@ func replayGated(c *Ctx, raw json.RawMessage) bool {
 }
 
 func init() { replays["gated"] = replayGated }
+
+// checkGatedDeterminism (C17): every fault-free interleaving of process steps that TLC finds for the two pipelines,
+// forced on a -race build through gated git processes: the report is the same for every schedule and the race
+// detector stays silent.
+func checkGatedDeterminism(c *Ctx, e *c10Env, race *run.Build) int {
+	type family struct {
+		module, consts, classes string
+		roots, blobs, subtrees  int
+	}
+	fams := []family{
+		{"Pipeline1X", "  NRoots = 2\n  NObjs = 3\n  Cap = 2\n  DropWaitError = FALSE\n  CopyBuffered = TRUE\n", "revlist,check", 2, 1, 0},
+		{"PipelineX", "  N = 3\n  Cap = 2\n  ConsumerWaits = TRUE\n", "batch", 1, 1, 1},
+	}
+	if !quick(c) {
+		fams = append(fams, family{"Pipeline1X", "  NRoots = 2\n  NObjs = 4\n  Cap = 3\n  DropWaitError = FALSE\n  CopyBuffered = TRUE\n", "revlist,check", 2, 2, 0},
+			family{"PipelineX", "  N = 5\n  Cap = 3\n  ConsumerWaits = TRUE\n", "batch", 2, 2, 3})
+	}
+	total := 0
+	for fi, f := range fams {
+		var free []schedule
+		for _, sch := range exportSchedules(c, f.module, f.consts) {
+			if !sch.hasDeath() && sch.Results["ok"] {
+				free = append(free, sch)
+			}
+		}
+		if len(free) == 0 {
+			Infra("%s exported no fault-free schedule", f.module)
+		}
+		sc := pipelineRepo(fmt.Sprintf("gdet%d", fi), f.roots, f.blobs, f.subtrees)
+		base, _ := os.MkdirTemp(c.Scratch, "gdet-")
+		repoDir := filepath.Join(base, "r")
+		if _, err := materialiseCase(repoDir, &sc); err != nil {
+			Infra("gated repository: %v", err)
+		}
+		classOf := func(ev string) string {
+			if strings.HasPrefix(ev, "Rev") {
+				return "revlist"
+			}
+			if f.module == "PipelineX" {
+				return "batch"
+			}
+			return "check"
+		}
+		first := ""
+		for i, sch := range free {
+			o := e.runGatedWith(race, fmt.Sprintf("gd%d-%d", fi, i), repoDir, []string{"--json", "--no-progress"}, f.classes, sch, classOf, "kill")
+			total++
+			c.Distinct("gated-det:" + f.module + f.consts + strings.Join(sch.Trail, ","))
+			why := ""
+			switch {
+			case strings.Contains(o.Stderr, "DATA RACE") || o.Exit == 66:
+				why = "data_race_reported"
+			case o.TimedOut:
+				why = "hangs"
+			case o.Exit != 0:
+				why = "no_report"
+			case first == "":
+				first = o.Stdout
+			case o.Stdout != first:
+				why = "stdout_depends_on_the_schedule"
+			}
+			if why != "" {
+				c.AddViolation(Violation{Predicate: why, Spec: f.module + " (fault-free schedules forced on the -race build)", Kind: "gated-det",
+					Input:    map[string]interface{}{"module": f.module, "classes": f.classes, "roots": f.roots, "blobs": f.blobs, "subtrees": f.subtrees, "trail": sch.Trail},
+					Observed: map[string]interface{}{"exit": o.Exit, "stderr": tail(o.Stderr, 10), "infeasible": o.Infeasible}})
+				break
+			}
+		}
+		c.Note("%s: %d fault-free schedules forced on the -race build: one report, no race", f.module, len(free))
+		os.RemoveAll(base)
+	}
+	return total
+}
+
+func replayGatedDet(c *Ctx, raw json.RawMessage) bool {
+	var rp struct {
+		Input struct {
+			Module   string   `json:"module"`
+			Classes  string   `json:"classes"`
+			Roots    int      `json:"roots"`
+			Blobs    int      `json:"blobs"`
+			Subtrees int      `json:"subtrees"`
+			Trail    []string `json:"trail"`
+		} `json:"input"`
+	}
+	json.Unmarshal(raw, &rp)
+	sub := &Ctx{Prop: c.Prop}
+	sub.Ev.DistinctNT = map[string]bool{}
+	sub.Ev.Extra = map[string]interface{}{}
+	sub.Scratch, _ = mkScratch(c.Scratch)
+	env := newScanEnv(sub, true, false)
+	race, err := run.BuildSizer(filepath.Join(sub.Scratch, "racebin"), "verif", true)
+	if err != nil {
+		Infra("%v", err)
+	}
+	e := &c10Env{c: sub, env: env, fake: buildFakeGit(sub), home: sub.Scratch}
+	sc := pipelineRepo("replay", rp.Input.Roots, rp.Input.Blobs, rp.Input.Subtrees)
+	repoDir := filepath.Join(sub.Scratch, "r")
+	if _, err := materialiseCase(repoDir, &sc); err != nil {
+		Infra("replay: %v", err)
+	}
+	args := []string{"--json", "--no-progress"}
+	clean := race.Run(run.Opt{Dir: repoDir, Args: args, Home: sub.Scratch, Env: []string{"GORACE=halt_on_error=0"}})
+	classOf := func(ev string) string {
+		if strings.HasPrefix(ev, "Rev") {
+			return "revlist"
+		}
+		if rp.Input.Module == "PipelineX" {
+			return "batch"
+		}
+		return "check"
+	}
+	for k := 0; k < 3; k++ {
+		o := e.runGatedWith(race, "replay", repoDir, args, rp.Input.Classes, schedule{Trail: rp.Input.Trail}, classOf, "kill")
+		if strings.Contains(o.Stderr, "DATA RACE") || o.Exit != 0 || o.TimedOut || o.Stdout != string(clean.Stdout) {
+			return true
+		}
+	}
+	return false
+}
+
+func init() { replays["gated-det"] = replayGatedDet }
